@@ -64,12 +64,13 @@ Requests(op) ==
      [] op = "get_transfer_from_linkage" -> R1(op, Linkages)
      [] op = "get_transfer_from_convention" -> R1(op, CallConvs)
      [] op = "get_transfer" -> R2(op, Linkages, CallConvs)
-     [] op \in {"get_identifier", "get_operator", "get_logogram", "get_linkage", "get_calling_convention"} -> RW(op)
+     [] op \in {"get_identifier", "get_operator", "get_logogram", "get_linkage", "get_calling_convention", "get_identifier_s",
+                "get_operator_s", "get_linkage_s"} -> RW(op)
      [] op \in {"get_suffix", "get_label"} -> R1(op, Idents)
      [] op = "get_guide_name" -> R1(op, Templates)
      [] op = "get_template_id" -> R2(op, Exprs, ExprLists)
      [] op = "get_symbol" -> R2(op, Idents, Types)
-     [] op \in {"get_literal", "make_literal"} -> {Req(op, <<t>>, 0, w) : t \in Types, w \in WordSet}
+     [] op \in {"get_literal", "make_literal", "get_literal_s", "make_literal_s"} -> {Req(op, <<t>>, 0, w) : t \in Types, w \in WordSet}
      [] op = "eq_linkage" -> R2(op, Linkages, Linkages)
      [] op = "eq_callconv" -> R2(op, CallConvs, CallConvs)
      [] op = "eq_transfer" -> R2(op, Transfers, Transfers)
